@@ -1028,8 +1028,26 @@ func (e *exec) runManualRW(desc string, p *txPlan) {
 		_ = tx.Rollback()
 		return
 	}
+	// the transaction may be ended through the handle a bucket gives out
+	// (Bucket.Tx()) instead of the one BeginReadWriteTx returned
+	ender := walletdb.ReadWriteTx(tx)
+	if p.ClosedOp&4 != 0 {
+		var first []byte
+		_ = tx.ForEachBucket(func(k []byte) error {
+			if first == nil {
+				first = append([]byte{}, k...)
+			}
+			return nil
+		})
+		if first != nil {
+			if b := tx.ReadWriteBucket(first); b != nil {
+				ender = b.Tx()
+				e.class("manual-tx-ended-through-bucket-handle")
+			}
+		}
+	}
 	if p.Outcome == oNil {
-		if err := tx.Commit(); err != nil {
+		if err := ender.Commit(); err != nil {
 			e.failf("%s: Commit: %v", desc, err)
 			return
 		}
@@ -1040,7 +1058,7 @@ func (e *exec) runManualRW(desc string, p *txPlan) {
 			e.failf("%s: committed, OnCommit hook ran %d times", desc, e.hooks)
 		}
 	} else {
-		if err := tx.Rollback(); err != nil {
+		if err := ender.Rollback(); err != nil {
 			e.failf("%s: Rollback: %v", desc, err)
 			return
 		}
